@@ -117,6 +117,8 @@ pub fn drive(name: &str, out: &str, args: &[String]) {
     match name {
         "panic" => panic_driver(out, seed, arg(args, 1, 200), arg(args, 2, 60)),
         "ledger" => ledger_driver(out, seed, arg(args, 1, 50), arg(args, 2, 100)),
+        "risk" => risk_driver(out, seed, arg(args, 1, 100)),
+        "liq" => liq_driver(out, seed, arg(args, 1, 100)),
         _ => {
             eprintln!("unknown driver {}", name);
             std::process::exit(2);
@@ -252,5 +254,441 @@ fn ledger_driver(out: &str, seed: u64, n: u64, len: u64) {
             r.act(a);
         }
     }
+    r.finish();
+}
+
+// ------------------------------------------------------------------------------------------------
+// risk driver: randomized configurations, amounts binary-searched to the accept/reject boundary
+// ------------------------------------------------------------------------------------------------
+fn base_setup() -> Vec<Value> {
+    vec![
+        json!({"op":"init_fee_state","admin":"feeadmin","wallet":"feewallet","prog_fixed":"0.01","prog_rate":"0.025","liq_max_fee":"0.05"}),
+        json!({"op":"init_group","group":"G1","admin":"admin"}),
+        json!({"op":"config_group","group":"G1","risk_admin":"riskadmin","emode_admin":"emodeadmin","curve_admin":"curveadmin","limit_admin":"limitadmin","emissions_admin":"emisadmin","metadata_admin":"metaadmin"}),
+        json!({"op":"init_account","acct":"A1","group":"G1","authority":"U1"}),
+        json!({"op":"init_account","acct":"A2","group":"G1","authority":"U2"}),
+        json!({"op":"init_account","acct":"LP","group":"G1","authority":"U9"}),
+    ]
+}
+
+struct BankSpec {
+    name: String,
+    mint: String,
+    oracle: String,
+    dec: u8,
+    price: i64,
+    expo: i32,
+}
+
+/// random bank world: `n` banks named <prefix>1..n with their own mint and oracle. Returns setup actions.
+#[derive(Default, Clone, Copy)]
+struct BankOpts {
+    quiet: bool,          // zero confidence, spot = ema
+    small: bool,          // tiny unit value (expo -8, decimals >= 6): lets positions fall below the bankruptcy threshold
+    weighted: bool,       // collateral weight > 0, not isolated
+}
+
+fn rand_bank(rng: &mut StdRng, name: &str, collateral: bool, out: &mut Vec<Value>) -> BankSpec {
+    rand_bank_o(rng, name, collateral, BankOpts::default(), out)
+}
+
+fn rand_bank_o(rng: &mut StdRng, name: &str, collateral: bool, o: BankOpts, out: &mut Vec<Value>) -> BankSpec {
+    let dec: u8 = if o.small { *pick(rng, &[6u8, 8, 9]) } else { *pick(rng, &[0u8, 2, 6, 6, 8, 9]) };
+    let kind = *pick(rng, &["spl", "spl", "t22", "t22fee"]);
+    let mint = format!("M.{}", name);
+    let oracle = format!("O.{}", name);
+    out.push(json!({"op":"add_mint","mint":mint,"decimals":dec,"kind":kind,"fee_bps": *pick(rng, &[1u64, 100, 500]),"max_fee": *pick(rng, &[10u64, 5000, 1_000_000_000])}));
+    let expo: i32 = if o.small { -8 } else { *pick(rng, &[-8, -6, -4, -2, 0]) };
+    let price: i64 = match *pick(rng, &[0, 1, 2, 3]) {
+        0 => rng.gen_range(1..1000),
+        1 => rng.gen_range(1000..10_000_000),
+        2 => rng.gen_range(10_000_000..2_000_000_000),
+        _ => 10i64.pow((-expo) as u32),
+    };
+    let mut okind = *pick(rng, &["pyth", "pyth", "swb", "fixed"]);
+    if okind == "swb" && (price as f64) * 10f64.powi(expo) > 100_000.0 {
+        okind = "pyth";
+    }
+    let confr = if o.quiet { 0.0 } else { *pick(rng, &[0.0f64, 0.0, 0.0, 0.0, 0.001, 0.001, 0.02, 0.02, 0.046, 0.0471, 0.06]) };
+    let emaf = if o.quiet { 1.0 } else { *pick(rng, &[1.0f64, 1.0, 0.93, 1.08]) };
+    let aw_init = if o.weighted { *pick(rng, &["0.25", "0.5", "0.8", "0.95", "1"]) } else { *pick(rng, &["0", "0.25", "0.5", "0.8", "0.95", "1"]) };
+    let (aw_i, aw_m): (&str, &str) = if collateral {
+        match aw_init {
+            "0" => ("0", *pick(rng, &["0", "0.5"])),
+            "0.25" => ("0.25", *pick(rng, &["0.25", "0.9"])),
+            "0.5" => ("0.5", *pick(rng, &["0.5", "0.65"])),
+            "0.8" => ("0.8", *pick(rng, &["0.9", "1.5"])),
+            "0.95" => ("0.95", "0.97"),
+            _ => ("1", *pick(rng, &["1", "2"])),
+        }
+    } else {
+        ("0.5", "0.6")
+    };
+    let (lw_i, lw_m) = *pick(rng, &[("1", "1"), ("1.25", "1.125"), ("1.5", "1.25"), ("2", "1"), ("1.05", "1.01")]);
+    let isolated = !collateral && !o.weighted && rng.gen_bool(0.15);
+    let init_limit: u64 = if collateral && rng.gen_bool(0.3) { *pick(rng, &[1u64, 50, 1000, 1_000_000]) } else { 0 };
+    let mut cfg = json!({"aw_init": if isolated {"0"} else {aw_i}, "aw_maint": if isolated {"0"} else {aw_m}, "lw_init": lw_i, "lw_maint": lw_m,
+        "risk_tier": if isolated {1} else {0}, "init_limit": init_limit, "oracle_max_age": *pick(rng, &[10u64, 60, 100, 300]),
+        "oracle_max_conf": *pick(rng, &[0u64, 0, 0, 0, 0, 214748364, 42949672]),
+        "ir": {"orig_fee": *pick(rng, &["0", "0", "0.005", "0.03"]), "ins_ir": "0.05", "grp_fixed": "0.01"}});
+    if kind == "t22fee" && rng.gen_bool(0.5) {
+        cfg["ir"]["orig_fee"] = json!("0");
+    }
+    out.push(json!({"op":"add_bank","group":"G1","bank":name,"mint":mint,"cfg":cfg}));
+    if okind == "fixed" {
+        let p = format!("{}/{}", price, 10i64.pow((-expo) as u32));
+        out.push(json!({"op":"set_fixed_price","bank":name,"price":p}));
+    } else if okind == "pyth" {
+        let conf = (price as f64 * confr) as i64;
+        let ema = ((price as f64) * emaf) as i64;
+        out.push(json!({"op":"set_oracle","oracle":oracle,"kind":"pyth","price":price,"conf":conf,"ema":ema.max(1),"ema_conf":conf,"expo":expo}));
+        out.push(json!({"op":"configure_oracle","bank":name,"oracle":oracle,"setup":3}));
+    } else {
+        // switchboard value scaled 1e18
+        let v: i128 = (price as i128) * 10i128.pow((18 + expo) as u32);
+        let sd: i128 = ((v as f64) * confr) as i128;
+        out.push(json!({"op":"set_oracle","oracle":oracle,"kind":"swb","swb_value":v.to_string(),"swb_std":sd.to_string()}));
+        out.push(json!({"op":"configure_oracle","bank":name,"oracle":oracle,"setup":4}));
+    }
+    BankSpec { name: name.to_string(), mint, oracle, dec, price, expo }
+}
+
+/// largest x in [0, hi] for which `mk(x)` is accepted, given that rejections are `reject_err`.
+/// Returns (lo_accepted, hi_rejected) with hi = lo + 1, or None when no clean boundary exists.
+fn search_boundary(r: &mut Recorder, mk: &dyn Fn(u64) -> Value, hi0: u64, reject_err: &str) -> Option<(u64, u64)> {
+    let ev = r.probe(&mk(hi0));
+    if ev["res"] == "ok" || ev["err"] != reject_err {
+        return None;
+    }
+    let (mut lo, mut hi) = (0u64, hi0);
+    while hi - lo > 1 {
+        let mid = lo + (hi - lo) / 2;
+        let ev = r.probe(&mk(mid));
+        if ev["res"] == "ok" {
+            lo = mid;
+        } else if ev["err"] == reject_err {
+            hi = mid;
+        } else {
+            return None;
+        }
+    }
+    Some((lo, hi))
+}
+
+fn risk_driver(out: &str, seed: u64, n: u64) {
+    let mut rng = StdRng::seed_from_u64(seed);
+    let mut r = Recorder::new(&format!("{}/risk.trace", out), base_setup());
+    let mut boundaries = 0u64;
+    for k in 0..n {
+        let mut extra = vec![];
+        let ncol = rng.gen_range(1..=3);
+        let mut cols = vec![];
+        for i in 0..ncol {
+            cols.push(rand_bank(&mut rng, &format!("C{}", i + 1), true, &mut extra));
+        }
+        let ndebt = if rng.gen_bool(0.25) { 2 } else { 1 };
+        let mut debts = vec![];
+        for i in 0..ndebt {
+            debts.push(rand_bank(&mut rng, &format!("D{}", i + 1), false, &mut extra));
+        }
+        // e-mode: the debt banks may carry entries for the collateral banks' tags
+        if rng.gen_bool(0.5) {
+            for (i, c) in cols.iter().enumerate() {
+                if rng.gen_bool(0.7) {
+                    extra.push(json!({"op":"configure_emode","bank":c.name,"tag": 10 + i as u64,"entries":[]}));
+                }
+            }
+            for d in debts.iter() {
+                let mut entries = vec![];
+                for i in 0..cols.len() {
+                    if rng.gen_bool(0.7) {
+                        let (wi, wm) = *pick(&mut rng, &[("0.9", "0.95"), ("0.1", "0.2"), ("0.6", "0.6"), ("0.85", "0.9")]);
+                        entries.push(json!({"tag": 10 + i as u64, "flags": 0, "init": wi, "maint": wm}));
+                    }
+                }
+                extra.push(json!({"op":"configure_emode","bank":d.name,"tag": 0,"entries":entries,"may_fail":true}));
+            }
+        }
+        // funding and positions
+        for c in cols.iter() {
+            let amt: u64 = *pick(&mut rng, &[1_000u64, 1_000_000, 123_456_789, 50_000_000_000, 7_000_000_000_000]);
+            extra.push(json!({"op":"fund","user":"U1","mint":c.mint,"amount":amt.to_string()}));
+            extra.push(json!({"op":"deposit","acct":"A1","bank":c.name,"amount":amt,"may_fail":true}));
+            if rng.gen_bool(0.3) {
+                // someone else's deposits push the bank over its init-value cap
+                extra.push(json!({"op":"fund","user":"U9","mint":c.mint,"amount":(amt as u128 * 50).to_string()}));
+                extra.push(json!({"op":"deposit","acct":"LP","bank":c.name,"amount":(amt as u128 * 40).min(u64::MAX as u128) as u64,"may_fail":true}));
+            }
+        }
+        for d in debts.iter() {
+            extra.push(json!({"op":"fund","user":"U9","mint":d.mint,"amount":"4000000000000000000"}));
+            extra.push(json!({"op":"deposit","acct":"LP","bank":d.name,"amount":"3000000000000000000","may_fail":true}));
+        }
+        // state changes after the deposits: reduce-only collateral, stale / doctored collateral oracle
+        if rng.gen_bool(0.15) {
+            let c = pick(&mut rng, &cols);
+            extra.push(json!({"op":"configure_bank","bank":c.name,"cfg":{"op_state":2},"may_fail":true}));
+        }
+        r.begin(&extra);
+        let mut osub = serde_json::Map::new();
+        match rng.gen_range(0..10) {
+            0 => {
+                let c = pick(&mut rng, &cols);
+                r.act(json!({"op":"set_oracle","oracle":c.oracle,"age":100000}));
+            }
+            1 => {
+                let c = pick(&mut rng, &cols);
+                osub.insert(c.name.clone(), json!(debts[0].oracle));
+            }
+            _ => {}
+        }
+        let d0 = &debts[0];
+        let mkb = |x: u64| -> Value {
+            let mut a = json!({"op":"borrow","acct":"A1","bank":d0.name,"amount":x});
+            if !osub.is_empty() {
+                a["oracle_sub"] = Value::Object(osub.clone());
+            }
+            a
+        };
+        // optionally a first borrow in the second debt bank (changes the e-mode intersection)
+        if debts.len() > 1 {
+            let d1 = &debts[1];
+            if let Some((lo, _)) = search_boundary(&mut r, &|x| json!({"op":"borrow","acct":"A1","bank":d1.name,"amount":x}), 1_000_000_000_000_000_000, "RiskEngineInitRejected") {
+                if lo > 3 {
+                    r.act(json!({"op":"borrow","acct":"A1","bank":d1.name,"amount":lo / 3}));
+                }
+            }
+        }
+        if let Some((lo, hi)) = search_boundary(&mut r, &mkb, 1_000_000_000_000_000_000, "RiskEngineInitRejected") {
+            boundaries += 1;
+            r.act(mkb(hi));
+            if k % 3 == 0 && lo > 4 {
+                // stop half way, then search the withdraw boundary
+                r.act(mkb(lo / 2));
+                let c = pick(&mut rng, &cols).name.clone();
+                let mkw = |x: u64| json!({"op":"withdraw","acct":"A1","bank":c,"amount":x});
+                if let Some((wlo, whi)) = search_boundary(&mut r, &mkw, 9_000_000_000_000_000, "RiskEngineInitRejected") {
+                    r.act(mkw(whi));
+                    if wlo > 0 {
+                        r.act(mkw(wlo));
+                    }
+                } else {
+                    r.act(json!({"op":"withdraw","acct":"A1","bank":c,"amount":0,"all":true}));
+                }
+            } else if lo > 0 {
+                r.act(mkb(lo));
+                r.act(mkb(1));
+            }
+        } else {
+            // no clean boundary: record what happens for a mid-size borrow anyway
+            r.act(mkb(1000));
+        }
+        r.act(json!({"op":"pulse_health","acct":"A1"}));
+    }
+    eprintln!("risk driver: {} scenarios, {} boundaries, {} events", n, boundaries, r.events);
+    r.finish();
+}
+
+// ------------------------------------------------------------------------------------------------
+// liquidation / bankruptcy driver
+// ------------------------------------------------------------------------------------------------
+fn set_price(spec: &BankSpec, kind_fixed: bool, price: i64, conf: i64) -> Value {
+    if kind_fixed {
+        json!({"op":"set_fixed_price","bank":spec.name,"price":format!("{}/{}", price, 10i64.pow((-spec.expo) as u32))})
+    } else {
+        json!({"op":"set_oracle","oracle":spec.oracle,"price":price,"conf":conf,
+               "swb_value": ((price as i128) * 10i128.pow((18 + spec.expo) as u32)).to_string(),
+               "swb_std": ((conf as i128) * 10i128.pow((18 + spec.expo) as u32)).to_string()})
+    }
+}
+
+fn liq_driver(out: &str, seed: u64, n: u64) {
+    let mut rng = StdRng::seed_from_u64(seed);
+    let mut r = Recorder::new(&format!("{}/liq.trace", out), base_setup());
+    let (mut nliq, mut nbk, mut nkill) = (0u64, 0u64, 0u64);
+    for k in 0..n {
+        let mut extra = vec![];
+        let bk_path = k % 2 == 0;
+        let c1 = rand_bank_o(&mut rng, "C1", true, BankOpts { quiet: true, small: bk_path, weighted: true }, &mut extra);
+        let dq = rng.gen_bool(0.7);
+        let d1 = rand_bank_o(&mut rng, "D1", false, BankOpts { quiet: dq, small: true, weighted: true }, &mut extra);
+        let c1_fixed = extra.iter().any(|a| a["op"] == "set_fixed_price" && a["bank"] == "C1");
+        // collateral must carry weight, debt bank not isolated for most runs
+        let camt: u64 = if bk_path { *pick(&mut rng, &[50_000u64, 1_000_000, 30_000_000]) } else { *pick(&mut rng, &[50_000u64, 1_000_000, 123_456_789, 50_000_000_000]) };
+        extra.push(json!({"op":"fund","user":"U1","mint":c1.mint,"amount":(camt as u128 * 2).to_string()}));
+        extra.push(json!({"op":"deposit","acct":"A1","bank":"C1","amount":camt,"may_fail":true}));
+        let kill_path = k % 4 == 0;
+        let lp_amt: u64 = if kill_path { 1_000_000 } else { *pick(&mut rng, &[1_000_000u64, 5_000_000_000, 3_000_000_000_000_000]) };
+        extra.push(json!({"op":"fund","user":"U9","mint":d1.mint,"amount":"4000000000000000000"}));
+        extra.push(json!({"op":"deposit","acct":"LP","bank":"D1","amount":lp_amt,"may_fail":true}));
+        // liquidator: funded in both mints, deposits in D1 or C1
+        extra.push(json!({"op":"fund","user":"U2","mint":d1.mint,"amount":"4000000000000000000"}));
+        extra.push(json!({"op":"fund","user":"U2","mint":c1.mint,"amount":"4000000000000000"}));
+        let liqor_mode = rng.gen_range(0..3);
+        if liqor_mode == 0 {
+            extra.push(json!({"op":"deposit","acct":"A2","bank":"D1","amount":lp_amt,"may_fail":true}));
+        } else if liqor_mode == 1 {
+            extra.push(json!({"op":"deposit","acct":"A2","bank":"C1","amount":camt.saturating_mul(40),"may_fail":true}));
+        } else {
+            extra.push(json!({"op":"deposit","acct":"A2","bank":"D1","amount":7,"may_fail":true}));
+            extra.push(json!({"op":"deposit","acct":"A2","bank":"C1","amount":camt.saturating_mul(40),"may_fail":true}));
+        }
+        if rng.gen_bool(0.3) {
+            extra.push(json!({"op":"configure_bank","bank":"D1","cfg":{"permissionless_bad_debt":true}}));
+        }
+        r.begin(&extra);
+        // borrow to (a fraction of) the limit
+        let mkb = |x: u64| json!({"op":"borrow","acct":"A1","bank":"D1","amount":x});
+        let b = search_boundary(&mut r, &mkb, 2_000_000_000_000_000_000, "RiskEngineInitRejected");
+        let (lo, _hi) = match b {
+            Some(x) if x.0 > 0 => x,
+            _ => {
+                // utilization-bound: borrow everything there is
+                let ev = r.act(mkb(lp_amt / 10 * 9));
+                if ev["res"] != "ok" {
+                    r.act(mkb(lp_amt / 2));
+                }
+                (0, 0)
+            }
+        };
+        if lo > 0 {
+            r.act(mkb(lo));
+        }
+        if kill_path {
+            // long neglect at high utilization: fees make debt outgrow deposits
+            r.act(json!({"op":"tick","dt": 315_360_000i64}));
+        } else if rng.gen_bool(0.4) {
+            r.act(json!({"op":"tick","dt": *pick(&mut rng, &[3600i64, 86400, 31_536_000, 94_608_000])}));
+        }
+        // liquidatable boundary in the collateral price: largest price at which liquidate(1) is accepted
+        let conf = 0i64;
+        let liq1 = json!({"op":"liquidate","liquidator":"A2","liquidatee":"A1","asset_bank":"C1","liab_bank":"D1","amount":1});
+        let price0 = c1.price;
+        let (mut plo, mut phi) = (1i64, price0);
+        let at = |r: &mut Recorder, p: i64| -> Value {
+            let s = r.ex.snapshot();
+            r.ex.apply(&set_price(&c1, c1_fixed, p, conf));
+            let ev = r.ex.apply(&liq1);
+            r.ex.restore(&s);
+            ev
+        };
+        let ev_hi = at(&mut r, phi);
+        let ev_lo = at(&mut r, plo);
+        if ev_hi["err"] == "HealthyAccount" && ev_lo["res"] == "ok" {
+            while phi - plo > 1 {
+                let mid = plo + (phi - plo) / 2;
+                let ev = at(&mut r, mid);
+                if ev["res"] == "ok" {
+                    plo = mid;
+                } else if ev["err"] == "HealthyAccount" {
+                    phi = mid;
+                } else {
+                    break;
+                }
+            }
+            r.act(set_price(&c1, c1_fixed, phi, conf));
+            r.act(liq1.clone());
+            r.act(set_price(&c1, c1_fixed, plo, conf));
+            if r.act(liq1.clone())["res"] == "ok" {
+                nliq += 1;
+            }
+        }
+        // now a real drop and liquidations of various sizes
+        let f = *pick(&mut rng, &[0.97f64, 0.9, 0.7, 0.4, 0.05]);
+        let pnew = ((plo as f64) * f).max(1.0) as i64;
+        let cc = (pnew as f64 * *pick(&mut rng, &[0.0f64, 0.0, 0.01, 0.04])) as i64;
+        r.act(set_price(&c1, c1_fixed, pnew, cc));
+        let mkl = |x: u64| json!({"op":"liquidate","liquidator":"A2","liquidatee":"A1","asset_bank":"C1","liab_bank":"D1","amount":x});
+        let top = camt.saturating_add(10);
+        // find the largest accepted seize amount (acceptance region is [1, max])
+        let (mut llo, mut lhi) = (0u64, top);
+        let e1 = r.probe(&mkl(1));
+        if e1["res"] == "ok" {
+            llo = 1;
+            let etop = r.probe(&mkl(top));
+            if etop["res"] != "ok" {
+                while lhi - llo > 1 {
+                    let mid = llo + (lhi - llo) / 2;
+                    if r.probe(&mkl(mid))["res"] == "ok" {
+                        llo = mid;
+                    } else {
+                        lhi = mid;
+                    }
+                }
+                r.act(mkl(lhi));
+            }
+            let part = *pick(&mut rng, &[llo, llo / 2 + 1, llo / 10 + 1, 1]);
+            if r.act(mkl(part))["res"] == "ok" {
+                nliq += 1;
+            }
+            if r.act(mkl((llo / 3).max(1)))["res"] == "ok" {
+                nliq += 1;
+            }
+        } else {
+            r.act(mkl(1));
+        }
+        r.act(json!({"op":"pulse_health","acct":"A1"}));
+        // bankruptcy path: collateral becomes worthless
+        if bk_path {
+            r.act(set_price(&c1, c1_fixed, 1, 0));
+            // seize whatever can still be seized
+            for _ in 0..3 {
+                let e1 = r.probe(&mkl(1));
+                if e1["res"] != "ok" {
+                    break;
+                }
+                let (mut a, mut b2) = (1u64, top);
+                while b2 - a > 1 {
+                    let mid = a + (b2 - a) / 2;
+                    if r.probe(&mkl(mid))["res"] == "ok" {
+                        a = mid;
+                    } else {
+                        b2 = mid;
+                    }
+                }
+                if r.act(mkl(a))["res"] == "ok" {
+                    nliq += 1;
+                }
+            }
+            // insurance fund variants
+            let bad_guess: u64 = lo.max(lp_amt / 2);
+            let ins: u64 = *pick(&mut rng, &[0u64, 1, bad_guess / 3, bad_guess, bad_guess.saturating_mul(3)]);
+            if ins > 0 {
+                r.act(json!({"op":"fund_vault","mint":d1.mint,"dst":"D1.ins","amount":ins.to_string()}));
+            }
+            let signer = *pick(&mut rng, &["admin", "riskadmin", "U7", "U7"]);
+            let mut bk = json!({"op":"bankruptcy","acct":"A1","bank":"D1"});
+            if signer != "admin" {
+                bk["signer"] = json!(signer);
+            }
+            let ev = r.act(bk);
+            if ev["res"] != "ok" {
+                let ev2 = r.act(json!({"op":"bankruptcy","acct":"A1","bank":"D1"}));
+                if ev2["res"] == "ok" {
+                    nbk += 1;
+                }
+            } else {
+                nbk += 1;
+            }
+            // afterwards: everything on the account / bank
+            r.act(json!({"op":"bankruptcy","acct":"A1","bank":"D1"}));
+            r.act(json!({"op":"deposit","acct":"A1","bank":"C1","amount":5}));
+            r.act(json!({"op":"withdraw","acct":"LP","bank":"D1","amount":1}));
+            r.act(json!({"op":"deposit","acct":"LP","bank":"D1","amount":1000}));
+            let killed = r.ex.bank("D1").map(|b| b.config.operational_state as u8 == 3).unwrap_or(false);
+            if killed {
+                nkill += 1;
+                r.act(json!({"op":"configure_bank","bank":"D1","cfg":{"op_state":1}}));
+                r.act(json!({"op":"configure_bank","bank":"D1","cfg":{"op_state":3}}));
+                r.act(json!({"op":"deposit","acct":"LP","bank":"D1","amount":1000}));
+                r.act(json!({"op":"borrow","acct":"A2","bank":"D1","amount":1}));
+                r.act(json!({"op":"repay","acct":"A2","bank":"D1","amount":1}));
+                r.act(json!({"op":"withdraw","acct":"LP","bank":"D1","amount":0,"all":true}));
+            } else {
+                r.act(json!({"op":"configure_bank","bank":"D1","cfg":{"op_state":3}}));
+            }
+        }
+    }
+    eprintln!("liq driver: {} scenarios, {} liquidations ok, {} bankruptcies ok, {} banks killed, {} events", n, nliq, nbk, nkill, r.events);
     r.finish();
 }
